@@ -259,21 +259,21 @@ static inline _Bool atomic_u64_compare_exchange_weak(atomic_u64 *a, uint64_t *ex
   __CPROVER_assert(M_PTR(o) == MCS.addr[0], "[C02][G.handoff] the lock word is updated by a release only while my node is the tail");
   if(MCS.fn == MCS_UNLOCKS)
   {
-    __CPROVER_assert(M_S(o) >= 1 && ((desired == o - M_SBIT && (M_FLAGS(desired) & ~M_XBIT) != 0) || (desired == 0 && M_FLAGS(o) == M_SBIT)), "[C01][C02][G.step] UnlockS on the tail removes exactly one shared holder, and frees the word only if it was the last flag");
+    __CPROVER_assert(M_S(o) >= 1 && ((desired == o - M_SBIT && (M_FLAGS(desired) & ~M_XBIT) != 0) || (desired == 0 && M_FLAGS(o) == M_SBIT)), "[C01][C02][C12][G.step] UnlockS on the tail removes exactly one shared holder, and frees the word (which hands the group's node back) only if it was the last flag");
     MCS.nulled = (desired == 0);
     MCS.l_handoffs++;
     __CPROVER_assert(VERIF_IS_RELEASE(mo_s), "[C08][publish] a release step on the lock word is a release operation");
   }
   else if(MCS.fn == MCS_UNLOCKSIX)
   {
-    __CPROVER_assert(M_SIX(o) && ((desired == (o ^ M_SIXBIT) && M_S(o) != 0) || (desired == 0 && M_FLAGS(o) == M_SIXBIT)), "[C01][C02][G.step] UnlockSIX on the tail clears exactly the SIX flag, and frees the word only if it was the last flag");
+    __CPROVER_assert(M_SIX(o) && ((desired == (o ^ M_SIXBIT) && M_S(o) != 0) || (desired == 0 && M_FLAGS(o) == M_SIXBIT)), "[C01][C02][C12][G.step] UnlockSIX on the tail clears exactly the SIX flag, and frees the word only if it was the last flag");
     MCS.nulled = (desired == 0);
     MCS.l_handoffs++;
     __CPROVER_assert(VERIF_IS_RELEASE(mo_s), "[C08][publish] a release step on the lock word is a release operation");
   }
   else if(MCS.fn == MCS_UNLOCKX)
   {
-    __CPROVER_assert(M_X(o) && ((desired == (o ^ M_XBIT) && M_S(o) != 0) || (desired == 0 && M_FLAGS(o) == M_XBIT)), "[C01][C02][G.step] UnlockX on the tail clears exactly the X flag, and frees the word only if it was the last flag");
+    __CPROVER_assert(M_X(o) && ((desired == (o ^ M_XBIT) && M_S(o) != 0) || (desired == 0 && M_FLAGS(o) == M_XBIT)), "[C01][C02][C12][G.step] UnlockX on the tail clears exactly the X flag, and frees the word only if it was the last flag");
     MCS.nulled = (desired == 0);
     MCS.l_handoffs++;
     __CPROVER_assert(VERIF_IS_RELEASE(mo_s), "[C08][publish] a release step on the lock word is a release operation");
